@@ -80,6 +80,9 @@ impl StatementBatch {
                 let on = TimeoutLimit::parse(&t.on)?;
                 if millis >= on.as_secs() * 1000 {
                     task.set_data_with(|data| data.set(&key, true));
+                    // no task event follows: the once-mark has to reach the row now,
+                    // or the rule fires again after a reload
+                    task.persist();
                     for node in &task
                         .node()
                         .children_in(NodeOutputKind::Timeout, Some(t.on.clone()))
